@@ -441,7 +441,23 @@ def single_row_cursor_rule(ctx, rule):
            "; ".join(bad) + ": the next item is parsed from the wrong line", lp.lineno)
 
 
+def write_branches_agree_rule(ctx, rule):
+    """`write(path)` and `write(file object)` put the same text (the same bytes) out: every `.write(..)` of the method is handed the same
+    expression, and nothing is written by another call (`writelines(self.lines)` joins without line breaks - and `lines` is not what
+    `serialize()` gives)"""
+    for rel, q in ((CIF, "CIFFile.write"), (BCIF, "BinaryCIFFile.write")):
+        f = ctx.src(rel).func(q)
+        outs = [c for c in ast.walk(f) if isinstance(c, ast.Call) and isinstance(c.func, ast.Attribute) and c.func.attr in ("write", "writelines", "write_text", "write_bytes")
+                and not (isinstance(c.func.value, ast.Name) and c.func.value.id in ("self", "super"))]
+        ctx.need(len(outs) >= 1, f"the output call(s) of {q}")
+        from ..exprnorm import canon as _canon
+        forms = {(c.func.attr, repr(_canon(c.args[0])) if len(c.args) == 1 else "?") for c in outs}
+        ctx.ob(rule, rel, q, f"{len(outs)} output call(s), {len(forms)} form(s)", len(forms) == 1 and next(iter(forms))[0] == "write",
+               f"the branches of {q} (path / file object) write different things: {sorted(forms)}", f.lineno)
+
+
 def run(ctx):
+    write_branches_agree_rule(ctx, "R2.write-branches-agree")
     single_row_cursor_rule(ctx, "R1.single-row-cursor")
     text_field_state_rule(ctx, "R1.text-field-state")
     serialized_key_rule(ctx, "R2.element-written-under-its-key")
